@@ -21,6 +21,7 @@ import (
 	"io"
 	"os"
 	"path/filepath"
+	"runtime"
 	"sync/atomic"
 	"time"
 
@@ -164,7 +165,7 @@ func c17TableChanges(r *ev.Result, base string) {
 			var armed atomic.Bool
 			armed.Store(true)
 			c := mk(func(n string) {
-				if n == at && armed.CompareAndSwap(true, false) {
+				if filepath.Base(n) == at && armed.CompareAndSwap(true, false) {
 					close(entered)
 					<-resume
 				}
@@ -177,8 +178,12 @@ func c17TableChanges(r *ev.Result, base string) {
 			go func() { b, err := c.From(dir); done <- res{b, err} }()
 			select {
 			case <-entered:
-			case x := <-done:
-				ev.Broken("c17 table changes: From returned (%q, %v) without converting %s", x.b, x.err, at)
+			case <-done:
+				/* The conversion did not go through the filter of this
+				file (under this name): nothing to interleave with here;
+				what it returns is judged by the other clauses. */
+				r.Inc("table_change_positions_not_reached", 1)
+				continue
 			case <-time.After(30 * time.Second):
 				ev.Broken("c17 table changes: From never reached the filter of %s", at)
 			}
@@ -210,4 +215,41 @@ func c17TableChanges(r *ev.Result, base string) {
 	r.Add(n)
 	r.Distinct += n
 	r.Set("table_changes_during_conversion", n)
+}
+
+// c17Counts: directories with 1..70 eligible files (every count, so every
+// remainder modulo whatever a block-wise or parallel implementation divides
+// by), with the process's processor count as it is and set to 3 and 1.
+func c17Counts(r *ev.Result, base string) {
+	dir := filepath.Join(base, "counts", "src")
+	defer os.RemoveAll(filepath.Join(base, "counts"))
+	n := 0
+	for _, procs := range []int{0, 3, 1} {
+		prev := 0
+		if 0 != procs {
+			prev = runtime.GOMAXPROCS(procs)
+		}
+		os.RemoveAll(dir)
+		os.MkdirAll(dir, 0o755)
+		var want bytes.Buffer
+		for k := 1; k <= 70; k++ {
+			name := fmt.Sprintf("f%03d.sh", k)
+			content := fmt.Sprintf("f%03d() { echo %d; }\n", k, k)
+			os.WriteFile(filepath.Join(dir, name), []byte(content), 0o644)
+			want.WriteString(content)
+			got, err := shellfuncsfile.NewDefaultConverter().From(dir)
+			n++
+			if nil != err || !bytes.Equal(got, want.Bytes()) {
+				r.Violate(ev.Violation{Signature: "file-count/payload-differs", Kind: "c17big", Replay: map[string]any{"files": k, "gomaxprocs": runtime.GOMAXPROCS(0)},
+					What: fmt.Sprintf("a directory of %d eligible files (GOMAXPROCS %d): the payload has %d bytes (err %v), the files together %d; the payload ends %q", k, runtime.GOMAXPROCS(0), len(got), err, want.Len(), tail(string(got), 40))})
+				break
+			}
+		}
+		if 0 != procs {
+			runtime.GOMAXPROCS(prev)
+		}
+	}
+	r.Add(n)
+	r.Distinct += n
+	r.Set("directories_by_file_count", n)
 }
